@@ -54,6 +54,7 @@ class DictValue(GenericValue):
                     f"{self._file._value_to_code(k)}: {v._new_code()}"
                     for k, v in self._new_value.items()
                     if not isinstance(v, UndecidedValue)
+                    and v._new_value is not undefined
                 ]
             )
             + "}"
@@ -79,8 +80,11 @@ class DictValue(GenericValue):
 
         to_insert = []
         for key, new_value_element in self._new_value.items():
-            if key not in self._old_value and not isinstance(
-                new_value_element, UndecidedValue
+            if (
+                key not in self._old_value
+                and not isinstance(new_value_element, UndecidedValue)
+                # the comparison of the sub-snapshot raised an exception
+                and new_value_element._new_value is not undefined
             ):
                 # add new values
                 to_insert.append((key, new_value_element._new_code()))
